@@ -154,6 +154,22 @@ def lost_proof_support(r, f, base_unit=None):
     knows nothing about its result."""
     out = []
     fns = [x for x in (f['fn'], f.get('body_fn')) if x]
+    # a change that only permutes the lines of the function (reordered match arms, swapped independent statements): proofs are
+    # sensitive to such order (string-literal case splits, Verus' encoding of guarded match arms) although the meaning may be
+    # the same; whether the new order is wrong is for a failing input to show
+    for fn in fns:
+        cur = getattr(r, 'fn_lines', {}).get(fn)
+        bh = (base_unit or {}).get('fn_lines', {}).get(fn)
+        bs = (base_unit or {}).get('fn_seq', {}).get(fn)
+        if cur is not None and bh is not None and bs is not None:
+            ren = getattr(r, 'fn_renames', {}).get(fn, {})
+            if ren:
+                inv = {v: k for k, v in ren.items()}
+                cur = [' '.join(inv.get(t, t) for t in l.split(' ')) for l in cur]
+            ch = hashlib.sha1('\n'.join(sorted(cur)).encode()).hexdigest()[:16]
+            cs = hashlib.sha1('\n'.join(cur).encode()).hexdigest()[:16]
+            if ch == bh and cs != bs:
+                out.append('the text of the function differs from the pinned tree only in the ORDER of its lines')
     for fn in fns:
         nb = (base_unit or {}).get('fn_closures', {}).get(fn)
         nn = getattr(r, 'fn_closures', {}).get(fn)
@@ -262,9 +278,10 @@ def run_property(pid, tier, seed):
                 w = None
             lost = lost_proof_support(results[u], f, base.get(u, {}))
             if lost and w is None:
-                # the changed text lost ghost support of this very function (a hint or loop/closure contract could not be placed):
-                # a failed proof is then expected even if the code is right; without a failing input it is undecided, not an alarm
-                undecided.append((u, 'obligation %s of %s fails, but ghost support of that function could not be placed on the changed text (%s) and no failing input was found' % (f['obligation'], f['fn'], '; '.join(lost)[:300])))
+                # the changed text lost ghost support of this very function (a hint or loop/closure contract could not be placed),
+                # or differs from the pinned text only in the order of its lines: a failed proof is then expected even if the
+                # code is right; without a failing input it is undecided, not an alarm
+                undecided.append((u, 'obligation %s of %s fails, but the failed proof is not conclusive (%s) and no failing input was found' % (f['obligation'], f['fn'], '; '.join(lost)[:300])))
                 continue
             helper = calls_uncontracted_helper(results[u], f, base.get(u, {}))
             if helper and w is None:
@@ -413,6 +430,8 @@ def rebaseline(pid=None):
             'sentinels': list(r.sentinels),
             'fn_idents': getattr(r, 'fn_idents', {}),
             'fn_closures': getattr(r, 'fn_closures', {}),
+            'fn_lines': {k: hashlib.sha1('\n'.join(sorted(v)).encode()).hexdigest()[:16] for k, v in getattr(r, 'fn_lines', {}).items()},
+            'fn_seq': {k: hashlib.sha1('\n'.join(v).encode()).hexdigest()[:16] for k, v in getattr(r, 'fn_lines', {}).items()},
         }
     os.makedirs(os.path.dirname(BASELINE), exist_ok=True)
     json.dump(base, open(BASELINE, 'w'), indent=1, sort_keys=True)
